@@ -1,0 +1,16 @@
+//go:build verif
+
+package delegation
+
+// Contracts for the deductive verifier in /verif (govc). Comment-only file.
+
+//@ pure func dlgValidAt(d *Token, at time.Time) bool =
+//@     (d.expiration == nil || !(inst(at) > inst(*d.expiration)))
+//@  && (d.notBefore == nil || !(inst(at) < inst(*d.notBefore)))
+//@
+//@ func (*Token).IsValidAt
+//@   requires t != nil
+//@   ensures [C04] spec: result == dlgValidAt(t, ti)
+//@   ensures [C04] inside: (t.notBefore == nil || inst(*t.notBefore) < inst(ti)) && (t.expiration == nil || inst(ti) < inst(*t.expiration)) ==> result
+//@   ensures [C04] outside: (t.notBefore != nil && inst(ti) < inst(*t.notBefore)) || (t.expiration != nil && inst(ti) > inst(*t.expiration)) ==> !result
+//@   assigns [C20] nothing
